@@ -78,7 +78,7 @@ CLAIMS.update({
         design_ref="§5 C09", technique="Lean 4 invariant proof over all schedules of a lock machine + AST-table obligation + event-trace tie + systematic schedule exploration of the real code against serial outcomes",
         note=CONC_NOTE),
     "C10": dict(
-        text="Theorems C10_no_lock_leaked (the bracket of _LoadAndSave/_BufferedLoadAndSave as written holds no lock after any failure point, all 16 cases), C10_bracket_lock_order, C10_no_deadlock (lock-hierarchy theorem for any number of threads and locks), C10_old_bracket_leaks (the model exhibits the pre-fix defect). Real code: fault injection of every operation x 6 fault kinds x root/child x unbuffered/buffered/capacity 0 on six families with instrumented locks (no lock owned afterwards; a second object completes a write); filename rebinding; deadlock detection under the scheduler incl. contexts entered/left by a concurrent thread.",
+        text="Theorems C10_no_lock_leaked (the bracket of _LoadAndSave/_BufferedLoadAndSave as written holds no lock after any failure point, all 16 cases), C10_bracket_lock_order, C10_no_deadlock (lock-hierarchy theorem for any number of threads and locks), C10_old_bracket_leaks (the model exhibits the pre-fix defect), C10_no_deadlock_audited (the hierarchy hypothesis as the acquisition audit Locks.acquireOk that the harness evaluates, through the model driver, on every lock acquisition it observes on the real code: buffer < file < class registry). Real code: fault injection of every operation x 6 fault kinds x root/child x unbuffered/buffered/capacity 0 on six families with instrumented locks (no lock owned afterwards; a second object completes a write); filename rebinding; deadlock detection under the scheduler incl. contexts entered/left by a concurrent thread and `obj.filename = other` concurrent with writers.",
         design_ref="§5 C10", technique="Lean 4 theorems (finite bracket table by decide, general lock-hierarchy theorem) + fault injection with instrumented locks + scheduler deadlock detection",
         note=CONC_NOTE),
     "C13": dict(
@@ -86,9 +86,9 @@ CLAIMS.update({
         design_ref="§5 C13", technique="Lean 4 linearizability theorem instantiated on the buffer machine + schedule exploration of the real buffered classes",
         note=CONC_NOTE),
     "C14": dict(
-        text="The full property is FALSE of the design (reads take no lock) and is recorded as known findings with root-cause signatures; proved: C14_partial_writers_only (= C09) and C14_counterexample_suspend, a kernel-checked schedule of the reader/writer machine (shared memory + suspend counter) that loses the writer's update. The check explores reader/writer programs on the real code; every violation whose signature (same-object vs separate objects, mechanism from the event trace, error class, operation) is not a listed finding is reported.",
+        text="The full property is FALSE of the design (reads take no lock) and is recorded as known findings with root-cause signatures; proved: C14_partial_writers_only (= C09) and C14_counterexample_suspend, a kernel-checked schedule of the reader/writer machine (shared memory + suspend counter) that loses the writer's update. The check explores reader/writer programs on the real code, unbuffered and inside buffer_backend(cap) of both strategies (capacities that make a reader's load force a flush); every violation whose signature (same-object vs separate objects, mechanism from the event trace, error class, operation) is not a listed finding is reported.",
         design_ref="§5 C14", technique="Lean 4 partial theorem + kernel-checked counter-example schedule + schedule exploration with signature-keyed known findings",
-        note=CONC_NOTE + "Known findings: reads on an object another thread is using (lost update via suspend counter or via merge, impossible values, IndexError/KeyError in the unlocked merge) and the multi-load Sequence mix-ins count/index/__contains__ against a concurrent writer on another object."),
+        note=CONC_NOTE + "Known findings, by call pattern: a lock-free read through a root object another thread uses (any symptom), the same through two objects sharing one container in a shared-memory buffered context, and the multi-load Sequence mix-ins count/index/__contains__ against a concurrent writer on another object."),
 })
 
 CLAIMS["C16"] = dict(
